@@ -267,13 +267,16 @@ def generate(L):
     if ab.replace(am.group(1), "OPTS") != want_ab:
         raise L.GenError(f"absolutize_git_dir_and_work_tree: unrecognised body {ab!r}")
     rb = _norm(_body(L.find_fn(src, "resolve_command_base_dir", REL)))
-    want_rb = ("let mut base = std::env::current_dir().map_err(GitAiError::IoError)?; let mut idx = 0usize; "
+    want_rb = ("let mut base: Option<PathBuf> = None; let mut idx = 0usize; "
                "while idx < global_args.len() { if global_args[idx] == \"-C\" { "
                "let path_arg = global_args.get(idx + 1).ok_or_else(|| { "
                "GitAiError::Generic(\"Missing path after -C in global git args\".to_string()) })?; "
                "let next_base = PathBuf::from(path_arg); "
-               "base = if next_base.is_absolute() { next_base } else { base.join(next_base) }; idx += 2; continue; } "
-               "idx += 1; } Ok(base)")
+               "base = Some(if next_base.is_absolute() { next_base } else { match base { "
+               "Some(current) => current.join(next_base), "
+               "None => std::env::current_dir() .map_err(GitAiError::IoError)? .join(next_base), } }); "
+               "idx += 2; continue; } idx += 1; } "
+               "match base { Some(base) => Ok(base), None => std::env::current_dir().map_err(GitAiError::IoError), }")
     if rb != want_rb:
         raise L.GenError(f"resolve_command_base_dir: unrecognised body {rb!r}")
 
